@@ -29,4 +29,5 @@ PROP = {'technique': 'property-based testing (rapid) with an independent punch c
            {'name': 'TestVerifC20_Concurrent', 'unit': REALM, 'race': True, 'timeout_quick': 1200, 'quick': 4000, 'thorough': 12000, 'shards_thorough': 8},
            {'name': 'TestVerifC20_ServerPuncher', 'unit': REALM, 'race': True, 'timeout_quick': 1200, 'quick': 2000, 'thorough': 8000, 'shards_thorough': 8},
            {'name': 'TestVerifC20_Writers', 'unit': REALM, 'timeout_quick': 1200, 'quick': 1500, 'thorough': 6000, 'shards_thorough': 8},
+           {'name': 'TestVerifC20_DiscoverSharesSocket', 'unit': REALM, 'race': True, 'timeout_quick': 1200, 'quick': 1500, 'thorough': 6000, 'shards_thorough': 8},
            {'name': 'FuzzVerifC20_Classify', 'unit': REALM, 'kind': 'fuzz', 'fuzz_secs': 240}]}
